@@ -38,6 +38,7 @@ type Case struct {
 	Gap    bool  `json:"gap,omitempty"`            // see genGap
 	Long   bool  `json:"long_wait,omitempty"`      // see genLongWait
 	UnlTl  bool  `json:"unlimited_tail,omitempty"` // see genUnlimited
+	Step   bool  `json:"step_profile,omitempty"`   // see genStep (step_test.go)
 	Dense  bool  `json:"dense,omitempty"`
 	ShotUs []int `json:"response_us,omitempty"`
 }
@@ -521,7 +522,26 @@ func check(c Case, o *vf.Obs) error {
 	o.ClassIf(longestWait >= 5*time.Second, "single_wait_ge_5s")
 	o.ClassIf(longestWait >= 8*time.Second, "single_wait_ge_8s")
 	o.ClassIf(longestWait >= 12*time.Second, "single_wait_ge_12s")
+	// step sections (in any test's profile): which of their levels hold no request
+	sf, err := collectStepFacts(c.Profile, parts)
+	if err != nil {
+		return err
+	}
+	o.ClassIf(sf.sections > 0, "step_section_in_profile")
+	o.ClassIf(sf.emptyLevels > 0, "step_level_without_request")
+	o.ClassIf(sf.leadingEmpty, "step_profile_begins_with_level_without_request")
+	o.ClassIf(sf.emptyAfterReqs, "step_level_without_request_after_earlier_requests")
+	o.ClassIf(sf.severalEmpty, "step_two_or_more_levels_without_request")
+	o.ClassIf(sf.wholeEmpty, "step_section_without_any_request")
+	o.ClassIf(sf.fractionalFrom, "step_fractional_from")
+	o.ClassIf(sf.beforeUnlimited, "step_level_without_request_before_unlimited")
+	o.ClassIf(sf.sections > 0 && sf.emptyLevels == 0, "step_every_level_has_requests")
+	o.ClassIf(sf.reqsAfterEmpty && vsProfile > 0, "requests_behind_step_level_without_request_compared_with_profile_time")
 	switch {
+	case c.Step:
+		if sf.reqsAfterEmpty && vsProfile > 0 {
+			o.NonTrivial()
+		}
 	case c.Long:
 		if longestWait >= 3*time.Second {
 			o.NonTrivial()
